@@ -10,7 +10,9 @@ RULE = ("frames: every opcode x mask x fin/rsv bits x payload length at the 125/
         "samples up to 70000 (thorough: all lengths 0..2100, 65000..66100, every 37th up to 70000 through the model; every length "
         "0..70000 through the implementation oracle), random keys, short/long keys and inconsistent payload_length (malformed); "
         "parse: valid encodings, every truncation of short ones, random bytes; streams: all 2- and 3-cut chunkings of short frame "
-        "sequences, random chunkings of long ones, byte-by-byte, plus malformed streams (unmasked, bad opcode, bad utf-8, Close twice); "
+        "sequences, every cut position in the header / extended length / key and around the end of frames of length 126, 127, 300, 65535, "
+        "65536, random chunkings of long ones, byte-by-byte, plus malformed streams (unmasked, bad opcode, bad utf-8, Close twice); the "
+        "oracle checks the final deliveries and, read by read, that exactly the frames complete so far have been delivered; "
         "non-trivial = extended length form or a cut that falls inside a frame")
 ASSUMPTIONS = ["continuation frames (opcode 0) and message fragmentation are not supported by the code and outside the statement",
                "client frames are masked, carry a wire opcode (Text/Binary/Close/Ping/Pong) and Text payloads are valid UTF-8",
